@@ -804,7 +804,8 @@ class Interp:
                     from_start = len(items) > 2 and items[2] == 'from-start'
                     items = [seq_here[0]]
                 if items is not None:
-                    sig = (f.body.id, f.bb, tuple(x['item'] for x in stack), self.frame_sig(f))
+                    # (the signature covers every frame on the stack: paths that differ in a caller's locals continue differently after the loop)
+                    sig = (f.body.id, f.bb, tuple(x['item'] for x in stack), tuple(self.frame_sig(fr) for fr in m.frames))
                     if sig in self.seen_loop_states and getattr(self, 'dedupe_loops', True):
                         m.finished = True
                         m.outcome = 'duplicate-loop-state'
